@@ -35,7 +35,7 @@ def confirm(pid, n):
             shutil.copy(f"{src}/patch.diff", dst); shutil.copy(f"{src}/demo.py", dst)
             meta = json.load(open(f"{src}/meta.json")) if os.path.exists(f"{src}/meta.json") else {}
             meta["property"] = pid
-            meta["round"] = 2 if os.environ.get("SEED_OFFSET") else 1
+            meta["round"] = int(os.environ.get("SEED_ROUND", "2" if os.environ.get("SEED_OFFSET") else "1"))
             meta["confirmed"] = ran
             meta["demo_output_with_patch"] = out1[-1500:]
             json.dump(meta, open(f"{dst}/meta.json", "w"), indent=1)
